@@ -207,6 +207,9 @@ class DefaultOptimizerStep(PlanStep):
             # The nested optimization may not have produced a result yet:
             self.plan.abort()
             return None, True
+        if results is None:
+            # The nested optimization did not produce a result:
+            return None, False
         if not isinstance(results, FunctionResults):
             msg = "Nested optimization must return a FunctionResults object."
             raise TypeError(msg)
